@@ -17,6 +17,14 @@ def _lazy1(mod, fn):
     return call
 
 
+def _with_frames(pid, base=None):
+    """static obligations of a property plus the frame clauses of its query methods (checks/query_frames.py)"""
+    def call(tier):
+        from checks.query_frames import query_frames
+        return (list(base(tier)) if base is not None else []) + query_frames(pid)
+    return call
+
+
 def _lazy(mod, fn):
     def call(tier, seed):
         import importlib
@@ -39,6 +47,7 @@ reg(PropertySpec(
     "C07", "Adaptive temperature steps meet the ESS target and are maximal",
     functions=[f"{SMC}:SMCSampler.current_target_efficiency", f"{SMC}:SMCSampler.determine_beta", f"{SMC}:SMCSampler.sample"],
     lean=["SMC.lean"],
+    extra_static=_with_frames("C07"),
     native=_lazy("checks.native_smc", "native_C07"),
     technique="contract-based deductive verification: bisection loop invariant (bracket) on the real determine_beta, z3; ESS/IW identities in Lean; bounded native scan of the ESS curve",
     assumptions=["'largest' is decided as the bracket left by the bisection: E(beta_star) >= target and E(beta_max) < target with 0 < beta_max - beta_star <= tolerance; it is the supremum only if the ESS curve is non-increasing (hypothesis, not proved)",
@@ -50,6 +59,7 @@ reg(PropertySpec(
     "C08", "SMC evidence is the accumulated product of incremental ratios",
     functions=[f"{SMC}:SMCSampler.sample", "samples:SMCSamples.to_standard_samples", f"{SMC}:SMCSampler.build_checkpoint_state"],
     lean=["SMC.lean"],
+    extra_static=_with_frames("C08"),
     native=_lazy("checks.native_smc", "native_C08"),
     technique="contract-based deductive verification: ghost head-population + series-sum invariants on the real SMCSampler.sample loop (z3); ratio/variance formulas in Lean; bounded native recomputation",
     assumptions=["callee contracts log_evidence_ratio = LER, log_evidence_ratio_variance = LERV, resample, mutate, to_standard_samples used modularly"],
@@ -94,6 +104,7 @@ reg(PropertySpec(
     "C09", "Resampling selects by incremental weight and copies particles intact",
     functions=["samples:SMCSamples.resample", f"{SMC}:SMCSampler.sample"],
     lean=["SMC.lean"],
+    extra_static=_with_frames("C09"),
     native=_lazy("checks.native_misc", "native_C09"),
     technique="contract-based deductive verification: symbolic execution of the real SMCSamples.resample (one recorded choice() call, every field take(field, IDX) with the one IDX, temperature, size, dtype; z3) + Lean theorem that the vector handed to the generator equals SOFTMAX(IW) for the definition generated from the same function; call-site obligations in SMCSampler.sample; bounded native stand-in",
     assumptions=["Generator.choice draws index i with probability p[i] (assumed contract of numpy.random.Generator)", "BaseSamples.__post_init__ converts value-preservingly (contract PostInitModel; verified under C15)"],
@@ -225,7 +236,7 @@ FLOWQ = ["flows.torch.flows:ZukoFlow.sample_and_log_prob", "flows.torch.flows:Zu
 reg(PropertySpec(
     "C03", "The fitted proposal is a normalised density; sampling and evaluation agree",
     functions=FLOWQ + ["transforms:CompositeTransform.__init__", "transforms:CompositeTransform.forward", "transforms:CompositeTransform.inverse"], lean=["C04.lean", "@dim"],
-    extra_static=_lazy1("contracts.transforms", "composite_roundtrip_lemma_static"),
+    extra_static=_with_frames("C03", _lazy1("contracts.transforms", "composite_roundtrip_lemma_static")),
     native=_lazy("checks.native_misc", "native_C03"),
     technique="contract-based deductive verification of the flow wrappers: the real ZukoFlow/FlowJax sample_and_log_prob, log_prob and sample are executed symbolically with row-wise models of the neural flow and the data transform; obligations: log_q = base_lp(x') - logJ_inv(x'), log_prob = base_lp(T x) + logJ_fwd(x), and (using the data transform's C04 contract at the goal's row) the log-density returned with draws equals log_prob at those draws; draws inside the bounds from the Lean theorems about the generated inverse maps; bounded native agreement / quadrature / reload",
     trusted_base=["change of variables for densities (trusted mathematics): with T a bijection with exact log-Jacobian (C04) and a normalised base flow, log_prob is a normalised density"],
